@@ -4,6 +4,7 @@ use crate::bfs::{Limits, Scenario};
 use crate::run::{Part, Plan};
 
 pub mod common;
+pub mod ghost;
 pub mod c04;
 pub mod c05;
 pub mod c14;
@@ -87,7 +88,7 @@ pub fn replay_fun(property: &str, scenario: &str, input: &serde_json::Value) -> 
         "C13" => c13::replay_fun(scenario, input),
         "C18" => c18::replay_fun(input),
         "C20" => c20::replay_fun(scenario, input),
-        "C07" | "C08" | "C16" => chat::replay_fun(property, scenario, input),
+        "C07" | "C08" | "C09" | "C16" => chat::replay_fun(property, scenario, input),
         _ => vec![],
     }
 }
